@@ -466,6 +466,11 @@ namespace occa {
 
     void typelessMapTo(occa::memory output,
                        const baseFunction &fn) const {
+      if (!length()) {
+        // Nothing to map and no output memory to hand to the kernel
+        return;
+      }
+
       occa::scope arrayScope = getMapArrayScope(fn);
       arrayScope.add("occa_array_output", output);
 
